@@ -731,7 +731,7 @@ def wkt_unit():
     return Unit('SrcWkt', src, 'GV.Src.Wkt', ['GeoVerif.Model.Wkt', 'GeoVerif.Model.PyPrelude'], insts, classes,
                 header=header, attr_types=attr, abstract=abstract,
                 intrinsics={'str': str_, 'GeoCircle': circle},
-                hooks={'isinstance': lambda typ: None, 'strings': True, 'sequences': True, 'resolve': src.resolve,
+                hooks={'isinstance': lambda typ: None, 'strings': True, 'sequences': True, 'resolve': src.resolve, 'always_truthy': (),
                        'super_method': super_method,
                        'local_type': lambda qual, name: {'bbox_strs': 'List Str'}.get(name) if qual.endswith('.to_wkt') else None},
                 ctx_params=[('io', 'GV.Wkt.NumIO F')])
